@@ -368,6 +368,11 @@ func (t *ncTarget) setCandidate(source TargetSource) (*sdcpb.SetDataResponse, er
 	}
 	rpcWarnings, err := filterRPCErrors(resp.Doc, "warning")
 	if err != nil {
+		// the edit is already in the candidate, do not leave it there
+		err2 := t.driver.Discard()
+		if err2 != nil {
+			log.Errorf("failed with %v while discarding pending changes after error %v", err2, err)
+		}
 		return nil, fmt.Errorf("filtering netconf rpc-errors with severity warnings: %w", err)
 	}
 
@@ -378,6 +383,12 @@ func (t *ncTarget) setCandidate(source TargetSource) (*sdcpb.SetDataResponse, er
 		if strings.Contains(err.Error(), "EOF") {
 			t.Close()
 			go t.reconnect()
+			return nil, err
+		}
+		// the commit failed, discard the candidate so that a later transaction does not commit the leftovers
+		err2 := t.driver.Discard()
+		if err2 != nil {
+			log.Errorf("failed with %v while discarding pending changes after error %v", err2, err)
 		}
 		return nil, err
 	}
